@@ -54,6 +54,12 @@ Theorem C16_hist_shares_add_up_to_100 : forall ivs v,
   exists l, hist_percent XR ivs v = map (@Fin R) l /\ rsum l = 100.
 Proof. exact hist_percent_sums_to_100. Qed.
 
+(* -m freq: every drawn frequency is a share in [0, 1] *)
+Theorem C16_freq_values_are_shares : forall ivs v y, In y (freq_line XR ivs v) ->
+  (forall iv, In iv ivs -> exists x b, In x v /\ iv_within XR iv x = Some b) ->
+  exists r, y = Fin r /\ 0 <= r <= 1.
+Proof. exact freq_line_in_unit_interval. Qed.
+
 (* non-vacuity *)
 Example C16_example : increasing [0; 1/2; 1] /\ [0; 1/2; 1] <> [] /\ 0 <= 1 <= last_edge [0; 1/2; 1].
 Proof. unfold last_edge; cbn. repeat split; try lra. discriminate. Qed.
